@@ -39,6 +39,10 @@ impl DesKey {
     pub fn verif_state(&self) -> (u64, usize) {
         (self.salt_value as u64, self.buf.len())
     }
+    /// Position the salt counter (to reach the wrap-around within a test)
+    pub fn verif_set_salt(&mut self, v: u64) {
+        self.salt_value = v as u32;
+    }
 }
 
 impl SnmpPriv for DesKey {
